@@ -168,4 +168,12 @@ def connF (f : Framer) (c : Codec) : Dir → Bytes → Except Unit Bytes
     | .ok (_, b) => .ok b
     | .error _ => .error ()
 
+/-- the compressor of the model's own peers (driver, examples): one tag byte in front. It round-trips
+    and never fails; by the codec-parametric theorems any such codec stands for snappy / lz4. -/
+def tagCodec : Codec :=
+  { enc := fun x => .ok (0x5A :: x),
+    dec := fun y => match y with
+      | 0x5A :: x => .ok x
+      | _ => .error () }
+
 end Compress
